@@ -16,13 +16,14 @@ VERIF_DEFINE_CELT_FATAL
 void h_has_lbrr(void)
 {
    int flen = nondet_int(), i, c, nb, ch, lbrr = 0, got; unsigned char *p; ec_dec dec;
-   __CPROVER_assume(1 <= flen && flen <= 3);
+   __CPROVER_assume(0 <= flen && flen <= 3);                /* flen == 0: a TOC-only packet (zero-length frame, RFC 6716 3.2.1) */
    p = malloc(1 + flen); __CPROVER_assume(p != NULL);
    for (i = 0; i < 4; i++) if (i < 1 + flen) p[i] = nondet_uchar();
    __CPROVER_assume((p[0] & 3) == 0);                    /* one frame (code 0) */
    got = opus_packet_has_lbrr(p, 1 + flen);
    if (p[0] & 0x80) { __CPROVER_assert(got == 0, "CELT-only packets carry no LBRR"); return; }
    CANARY("silk or hybrid");
+   if (flen == 0) { __CPROVER_assert(got == 0, "a zero-length (lost / DTX) frame carries no LBRR data"); return; }
    nb = opus_packet_get_samples_per_frame(p, 48000) > 960 ? opus_packet_get_samples_per_frame(p, 48000) / 960 : 1;   /* 20 ms SILK frames per Opus frame */
    ch = (p[0] & 4) ? 2 : 1;
    ec_dec_init(&dec, p + 1, flen);
@@ -32,6 +33,23 @@ void h_has_lbrr(void)
    }
    __CPROVER_assert(got == lbrr, "opus_packet_has_lbrr == OR of the per-channel LBRR flags the SILK decoder reads");
    CANARY("after has_lbrr");
+}
+
+/* C01 clause on this inspection function: any framing code, any length 0..5 (exact-size object, so a read beyond the
+   packet is a bounds failure), result 0, 1 or a negative error code */
+void h_has_lbrr_safe(void)
+{
+   int len = nondet_int(), i, got; unsigned char *p;
+   __CPROVER_assume(0 <= len && len <= 5);
+   p = malloc(len); __CPROVER_assume(p != NULL);
+   for (i = 0; i < 5; i++) if (i < len) p[i] = nondet_uchar();
+#ifdef VERIF_LBRR_MAXCOUNT   /* quick tier: code-3 packets with at most this many frames (keeps the parser's unwinding small) */
+   __CPROVER_assume(len < 2 || (p[0] & 3) != 3 || (p[1] & 0x3F) <= VERIF_LBRR_MAXCOUNT);
+#endif
+   got = opus_packet_has_lbrr(p, len);
+   __CPROVER_assert(got == 0 || got == 1 || got == OPUS_BAD_ARG || got == OPUS_INVALID_PACKET, "opus_packet_has_lbrr returns 0, 1, OPUS_BAD_ARG or OPUS_INVALID_PACKET");
+   __CPROVER_assert(len >= 1 || got < 0, "an empty packet is refused");
+   CANARY("after has_lbrr_safe");
 }
 
 /* header helpers agree with the parser on the same bytes */
